@@ -21,4 +21,8 @@ func c20(r *core.Run) {
 	seqAndStress(r, "c20", "MCBus_c05", "MCBus_c05_gen.cfg", r.Pick(200, 4000), g, r.Pick(400, 6000), r.Pick(80, 1500), 2020)
 	c20Persist(r)
 	c20Otel(r)
+	// persist callbacks inside the publish pipeline (recording store, failing and timed-out appends), with the recording
+	// Observability alone and behind the real OpenTelemetry implementation
+	pipeline(r, "c20", false, r.Pick(200, 2500), r.Pick(20, 250), 2022, func(c busdrv.Cfg) bool { return c.Obs }, nil)
+	pipeline(r, "c20-otel", false, r.Pick(200, 2500), 0, 2023, func(c busdrv.Cfg) bool { return c.Obs }, []string{"VERIF_OTEL=1"})
 }
